@@ -82,7 +82,8 @@ def main() -> None:
                     "    def __repr__(self):\n        return 'K(' + 'r' * 70 + ')'\n"
                     "def f({}):\n    return K({})\n").format(cond, kw, names[0], names[0], names[0], names[0], names[0])
         else:
-            src += "@icontract.{}({}{})\ndef f({}):\n    return 1\n".format(
+            ns["RESULT"] = make_value(c["result"]["kind"], c["result"]["size"]) if c.get("result") else 1
+            src += "@icontract.{}({}{})\ndef f({}):\n    return RESULT\n".format(
                 "require" if role == "pre" else "ensure", cond, kw, ", ".join(names))
         fname = "<icv-msg-{}>".format(c["mid"])
         import linecache
